@@ -1200,7 +1200,10 @@ func main() {
 		case x < 0.92:
 			w = tlsWorlds[r.Intn(len(tlsWorlds))]
 		default:
-			w = keyWorlds[r.Intn(len(keyWorlds))]
+			w = worlds[0]
+			if len(keyWorlds) > 0 {
+				w = keyWorlds[r.Intn(len(keyWorlds))]
+			}
 		}
 		cases = append(cases, w.run(s)...)
 	}
